@@ -232,6 +232,19 @@ def _leaf_paths(d, prefix=()):
     return out
 
 
+def _step_paths_of(eng):
+    """the engine's own list of step paths (a private attribute: None when it is not there under that
+    name — the bookkeeping is then judged by its behaviour only: published composite, which steps run)"""
+    sp = getattr(eng, '_step_paths', None)
+    return None if sp is None else sorted(list(p) for p in sp)
+
+
+def _layers_of(eng):
+    g = getattr(eng, '_step_graph', None)
+    fn = getattr(g, 'get_execution_layers', None)
+    return None if fn is None else [[list(p) for p in layer] for layer in fn()]
+
+
 def _snapshot(ctx):
     from vivarium.core.process import Process
     eng = ctx.engine
@@ -241,8 +254,8 @@ def _snapshot(ctx):
     snap = {
         't': ctx.now(),
         'procPaths': sorted(list(p) for p in eng.process_paths),
-        'stepPaths': sorted(list(p) for p in eng._step_paths),
-        'layers': [[list(p) for p in layer] for layer in eng._step_graph.get_execution_layers()],
+        'stepPaths': _step_paths_of(eng),
+        'layers': _layers_of(eng),
         'tree_procs': tree_procs, 'tree_steps': tree_steps,
         'published': {
             'processes': sorted(_leaf_paths(eng.processes)), 'steps': sorted(_leaf_paths(eng.steps)),
@@ -380,9 +393,9 @@ def _rebuild(eng, ctx, key):
         ctx2.engine = eng2
         out = {
             'procPaths': sorted(list(p) for p in eng2.process_paths) == sorted(list(p) for p in eng.process_paths),
-            'stepPaths': sorted(list(p) for p in eng2._step_paths) == sorted(list(p) for p in eng._step_paths),
-            'layers_rebuilt': [[list(p) for p in l] for l in eng2._step_graph.get_execution_layers()],
-            'layers_continued': [[list(p) for p in l] for l in eng._step_graph.get_execution_layers()],
+            'stepPaths': _step_paths_of(eng2) == _step_paths_of(eng),
+            'layers_rebuilt': _layers_of(eng2) or [],
+            'layers_continued': _layers_of(eng) or [],
         }
         n0 = len(ctx.log)
         eng.update(3)
@@ -483,9 +496,9 @@ def compare(case, impl, model):
         if s is None:
             continue      # the run ended before that tick
         for field in ('procPaths', 'stepPaths'):
-            if s[field] != sorted(m[field]):
+            if s[field] is not None and s[field] != sorted(m[field]):
                 return f'{field} after operation {k - 1}: engine {s[field]} model {sorted(m[field])}'
-        if s['layers'] != m['layers']:
+        if s['layers'] is not None and s['layers'] != m['layers']:
             return f'layers after operation {k - 1}: engine {s["layers"]} model {m["layers"]}'
     return None
 
@@ -502,11 +515,11 @@ def oracle(case, impl):
         if s['procPaths'] != s['tree_procs']:
             fails.append(f'processes: at {s["t"]} the engine lists {s["procPaths"]}, the hierarchy holds {s["tree_procs"]}')
             break
-        if s['stepPaths'] != s['tree_steps']:
+        if s['stepPaths'] is not None and s['stepPaths'] != s['tree_steps']:
             fails.append(f'steps: at {s["t"]} the engine lists {s["stepPaths"]}, the hierarchy holds {s["tree_steps"]}')
             break
-        layered = sorted(p for l in s['layers'] for p in l)
-        if layered != s['tree_steps']:
+        layered = None if s['layers'] is None else sorted(p for l in s['layers'] for p in l)
+        if layered is not None and layered != s['tree_steps']:
             fails.append(f'unscheduled: at {s["t"]} steps {s["tree_steps"]} exist, execution layers hold {layered}')
             break
         pub = s['published']
